@@ -48,6 +48,10 @@ func init() {
 		{"anagram-allowstep-consumes-letter", "dawg/dawg_search.go", "\t\tif p.counts[i].letter == b && p.counts[i].count > 0 {\n\t\t\treturn true\n\t\t}\n\t}\n\treturn false", "\t\tif p.counts[i].letter == b && p.counts[i].count > 0 {\n\t\t\tp.counts[i].count += 0\n\t\t\treturn true\n\t\t}\n\t}\n\treturn false", "SEARCHER-RO:(dawg.AnagramSearcher).AllowStep"},
 		{"anagram-allowword-trims-path", "dawg/dawg_search.go", "func (p AnagramSearcher) AllowWord() bool {\n\treturn", "func (p AnagramSearcher) AllowWord() bool {\n\tif len(p.currPath) > 90 {\n\t\tp.currPath[0] = p.blank\n\t}\n\treturn", "SEARCHER-RO:(dawg.AnagramSearcher).AllowWord"},
 		{"pattern-chosen-resets-pattern", "dawg/dawg_search.go", "func (p PatternSearcher) Chosen() {}", "func (p PatternSearcher) Chosen() {\n\tif len(p.pattern) > 90 {\n\t\tp.pattern[0] = p.blank\n\t}\n}", "SEARCHER-RO:(dawg.PatternSearcher).Chosen"},
+		{"search-early-return-mid-word", "dawg/dawg_search.go", "\t\tif len(currWord) == 0 {\n\t\t\treturn solns, ids\n\t\t}", "\t\tif len(currWord) == 0 || index == t.numWords-1 {\n\t\t\treturn solns, ids\n\t\t}", "BALANCE:(*dawg.Dawg).Search"},
+		{"search-backstep-skips-first-searcher", "dawg/dawg_search.go", "\t\tfor i := range searchers {\n\t\t\tsearchers[i].Backstep()\n\t\t}", "\t\tfor i := 1; i < len(searchers); i++ {\n\t\t\tsearchers[i].Backstep()\n\t\t}", "BALANCE:(*dawg.Dawg).Search"},
+		{"search-step-stops-at-first-refusal", "dawg/dawg_search.go", "\t\t\tfor i := range searchers {\n\t\t\t\tsearchers[i].Step(l)\n\t\t\t}", "\t\t\tfor i := range searchers {\n\t\t\t\tif i > 3 {\n\t\t\t\t\tbreak\n\t\t\t\t}\n\t\t\t\tsearchers[i].Step(l)\n\t\t\t}", "BALANCE:(*dawg.Dawg).Search"},
+		{"search-pops-twice", "dawg/dawg_search.go", "\t\tcurrWord = currWord[:len(currWord)-1]\n\t\tcurrDecisions", "\t\tcurrWord = currWord[:len(currWord)-1]\n\t\tif len(currWord) > 40 {\n\t\t\tcurrWord = currWord[:len(currWord)-1]\n\t\t}\n\t\tcurrDecisions", "BALANCE:(*dawg.Dawg).Search"},
 		{"search-calls-mutating-chosen", "dawg/dawg_search.go", "func (p AnagramSearcher) Chosen() {}", "func (p AnagramSearcher) Chosen() {\n\tif len(p.counts) > 90 {\n\t\tp.counts[0].count = 0\n\t}\n}", "STEP-ONLY:(*dawg.Dawg).Search"},
 	}
 	mutants["C04"] = []mutant{
